@@ -18,6 +18,6 @@ one() {
   git -C /repo worktree remove --force $wt
 }
 export -f one; export R HEAD
-ls /verif/seeded | grep -E "$PAT" | xargs -P $JOBS -I{} bash -c 'one {}' | tee $R/summary.txt
+(if [ -f "$PAT" ]; then cat "$PAT"; else ls /verif/seeded | grep -E "$PAT"; fi) | xargs -P $JOBS -I{} bash -c 'one {}' | tee $R/summary.txt
 git -C /repo worktree prune
 echo "caught: $(grep -c CAUGHT $R/summary.txt)  missed: $(grep -c MISSED $R/summary.txt)  stale: $(grep -c STALE $R/summary.txt)"
